@@ -8,6 +8,7 @@ PKG=$(head -1 /verif/findings/$F | awk '{print $2}')
 case "$PKG" in
   litefs_test|litefs) DIR="$R";;
   http_test|http) DIR="$R/http";;
+  lfsc|lfsc_test) DIR="$R/lfsc";;
   chunk_test|chunk) DIR="$R/internal/chunk";;
   *) DIR="$R";;
 esac
